@@ -123,11 +123,41 @@ Fixpoint sent_keys (items : list item) : list string :=
   | [] => []
   | it :: r => match sent_key it with Some k => k :: sent_keys r | None => sent_keys r end
   end.
-Definition nkeys (items : list item) : nat := List.length (nodup string_dec (sent_keys items)).
+(* the distinct ones among them (accumulator version: one pass, cheap under vm_compute) *)
+Fixpoint dedup (l acc : list string) : list string :=
+  match l with
+  | [] => acc
+  | x :: r => if existsb (String.eqb x) acc then dedup r acc else dedup r (x :: acc)
+  end.
+Definition nkeys (items : list item) : nat := List.length (dedup (sent_keys items) []).
 
 Definition holds (items : list item) : bool :=
   holds_from (Z.of_nat (nkeys items) <=? cacheSize c) [] items.
 End Mon.
+
+Lemma dedup_incl : forall l acc x, In x l \/ In x acc -> In x (dedup l acc).
+Proof.
+  induction l as [|y l IH]; intros acc x H; cbn [dedup].
+  - destruct H as [[]|H]. exact H.
+  - destruct (existsb (String.eqb y) acc) eqn:E.
+    + apply IH. destruct H as [[H|H]|H]; auto. subst y. right.
+      apply existsb_exists in E as (z & Hz & Ez). apply String.eqb_eq in Ez. now subst.
+    + apply IH. destruct H as [[H|H]|H]; [right; left; exact H|left; exact H|right; right; exact H].
+Qed.
+Lemma dedup_NoDup : forall l acc, NoDup acc -> NoDup (dedup l acc).
+Proof.
+  induction l as [|y l IH]; intros acc H; cbn [dedup]; [exact H|].
+  destruct (existsb (String.eqb y) acc) eqn:E; [apply IH, H|]. apply IH. constructor; [|exact H].
+  intros Hin. assert (existsb (String.eqb y) acc = true); [|congruence].
+  apply existsb_exists. exists y. split; [exact Hin|apply String.eqb_refl].
+Qed.
+Lemma dedup_sound : forall l acc x, In x (dedup l acc) -> In x l \/ In x acc.
+Proof.
+  induction l as [|y l IH]; intros acc x H; cbn [dedup] in H; [right; exact H|].
+  destruct (existsb (String.eqb y) acc).
+  - apply IH in H as [H|H]; [left; right; exact H|right; exact H].
+  - apply IH in H as [H|[H|H]]; [left; right; exact H|left; left; exact H|right; exact H].
+Qed.
 
 (* ------------------------------------------------------------------ the nonce clauses *)
 Fixpoint all_in_range (len : Z) (targets : list Z) : bool :=
